@@ -174,6 +174,10 @@ pub fn fmt_close(r: Result<(), CloseError>) -> String {
   }
 }
 
+fn fmt_cap(c: usize) -> String {
+  if c == usize::MAX { "n:max".into() } else { format!("n:{}", c) }
+}
+
 fn fmt_cap_opt(c: Option<usize>) -> String {
   match c {
     Some(n) => format!("some:{}", n),
@@ -341,7 +345,7 @@ macro_rules! g_probe {
 macro_rules! g_cap {
   ($h:expr, $op:expr) => {
     match $op.name() {
-      "capacity" => Some(format!("n:{}", $h.capacity())),
+      "capacity" => Some(fmt_cap($h.capacity())),
       "is_full" => Some($h.is_full().to_string()),
       _ => None,
     }
